@@ -367,7 +367,7 @@ func (rep *Report) writeEvidence(def *propDef, violations int) {
 	for _, c := range rep.Covers {
 		states += c.TLC.Distinct
 		transitions += c.TLC.Generated
-		evals += c.Histories
+		evals += c.Ops
 		distinct += c.Nontrivial
 		samples = append(samples, c.Samples...)
 		stages = append(stages, map[string]interface{}{"stage": "cover:" + c.Family, "catalogs": c.Catalogs, "bounds": c.Bounds,
@@ -379,7 +379,7 @@ func (rep *Report) writeEvidence(def *propDef, violations int) {
 		states += t.TLC.Distinct
 		transitions += t.TLC.Generated
 		traces += t.Accepted
-		evals += t.Containers
+		evals += t.Ops
 		distinct += t.Containers
 		samples = append(samples, t.Samples...)
 		exhaustive = false
@@ -423,7 +423,7 @@ func (rep *Report) writeEvidence(def *propDef, violations int) {
 			"samples":                       samples,
 			"evaluations":                   evals,
 			"distinct_nontrivial":           distinct,
-			"rule":                          "cover stages: every API-level transition TLC generates for a catalog family is printed as a history with the specification's predictions and replayed on a fresh real container (distinct = distinct operation sequences with fault plan; non-trivial = executes at least one user function or contains a rejected registration). trace stages: random catalogs/histories run on the real code, recorded, and validated by TLC against the specification (one container = one trace). " + def.rule,
+			"rule":                          "evaluations = API calls (Scope / Provide / Decorate / Invoke, front-end cases) executed on the real code by this run; distinct_nontrivial = distinct histories (operation sequence with fault plan) that execute a user function or contain a rejection, plus recorded containers; traces_validated_against_impl = histories replayed without any divergence plus recorded executions accepted by TLC. cover stages: every API-level transition TLC generates for a catalog family is printed as a history with the specification's predictions and replayed on a fresh real container (distinct = distinct operation sequences with fault plan; non-trivial = executes at least one user function or contains a rejected registration). trace stages: random catalogs/histories run on the real code, recorded, and validated by TLC against the specification (one container = one trace). " + def.rule,
 			"exhaustive":                    exhaustive && len(rep.Covers) > 0,
 			"stages":                        stages,
 			"projection":                    def.projection,
